@@ -96,7 +96,7 @@ pub fn collect(tier: &str, caps: &Caps, rep: &Report) -> Vec<BItem> {
         idx += 1;
     }
     rep.add_stats("mixed-kind", "full (fixed layouts)", &crate::explore::ExploreStats { leaves: cnt[0], transitions: cnt[0], ..Default::default() });
-    rep.add_stats("mixed-kind-2", "full (8 kind triples x 2 deriving kinds x 6 member orders)", &crate::explore::ExploreStats { leaves: cnt[1], transitions: cnt[1], ..Default::default() });
+    rep.add_stats("mixed-kind-2", "full (8 kind triples x 2 deriving kinds x explicit / implicit nested hints x 6 member orders)", &crate::explore::ExploreStats { leaves: cnt[1], transitions: cnt[1], ..Default::default() });
     items.into_inner().unwrap()
 }
 
